@@ -87,7 +87,7 @@ def model_level(ctx):
         jobs["bgen-c%d-l%d" % (cap, L)] = (lambda cfg=cfg, cap=cap, L=L: vlib.run_tlc(
             ctx, FAMILY, "GenRpcQueueSeq", cfg, timeout=900, name="bgen-c%d-l%d" % (cap, L), heap="8g", workers=4))
     res = {}
-    with cf.ThreadPoolExecutor(max_workers=6) as ex:
+    with cf.ThreadPoolExecutor(max_workers=8) as ex:
         futs = {ex.submit(f): k for k, f in jobs.items()}
         for fu in cf.as_completed(futs):
             res[futs[fu]] = fu.result()
